@@ -21,7 +21,11 @@ var accessHeader = regexp.MustCompile(`^(?i)(previous )?(atomic )?(read|write) a
 // parseRaceLog splits a race log into reports.
 func parseRaceLog(text string) []RaceReport {
 	var out []RaceReport
-	for _, block := range strings.Split(text, "==================") {
+	blocks := strings.Split(text, "==================")
+	if len(blocks) > 0 {
+		blocks = blocks[:len(blocks)-1] // a report is closed by a separator line; what follows the last one is not a whole report
+	}
+	for _, block := range blocks {
 		if !strings.Contains(block, "WARNING: DATA RACE") {
 			continue
 		}
@@ -81,8 +85,8 @@ func parseRaceLog(text string) []RaceReport {
 	return out
 }
 
-// readRaceLogs parses every log file written with the given log_path prefix.
-func readRaceLogs(prefix string) []RaceReport {
+// readRaceLogs parses every log file written with the given log_path prefix (each cut at limit bytes if limit >= 0).
+func readRaceLogs(prefix string, limit int64) []RaceReport {
 	files, _ := filepath.Glob(prefix + ".*")
 	sort.Strings(files)
 	var out []RaceReport
@@ -90,6 +94,9 @@ func readRaceLogs(prefix string) []RaceReport {
 		b, err := os.ReadFile(f)
 		if err != nil {
 			continue
+		}
+		if limit >= 0 && int64(len(b)) > limit {
+			b = b[:limit]
 		}
 		out = append(out, parseRaceLog(string(b))...)
 	}
@@ -99,19 +106,52 @@ func readRaceLogs(prefix string) []RaceReport {
 // ---- known findings: matchers over frame pairs -------------------------------------------------------------
 
 const (
-	kfLazyState = "KF-C18-01"
-	kfHandle    = "KF-C18-02"
-	kfSelector  = "KF-C18-03"
-	kfSmartLife = "KF-C18-04"
+	kfLazyState = "KF-C18-01" // lazyState shared between the background rebalancer / progress reader and foreground mutators without a lock
+	kfHandle    = "KF-C18-02" // rebalancer handle and its running flag published to querying goroutines without a lock
+	kfSelector  = "KF-C18-03" // ConfigSelector keeps lastDecisionTime/lastMode without a lock although Evaluate is documented concurrent-safe
+	kfSmartLife = "KF-C18-04" // SmartRebalancer Start/Stop generations share ctx and WaitGroup: race, WaitGroup-reuse panic, Stop that never returns
+)
+
+const (
+	fnRebalInc   = "structures.(*IncrementalRebalancer).rebalanceIncremental"
+	fnGetProg    = "structures.(*IncrementalRebalancer).GetProgress"
+	fnIRStart    = "structures.(*IncrementalRebalancer).Start"
+	fnIRStop     = "structures.(*IncrementalRebalancer).Stop"
+	fnIRLoop     = "structures.(*IncrementalRebalancer).rebalancingLoop"
+	fnBatch      = "structures.(*WritableBTreeV2).BatchRebalance"
+	fnLazyOn     = "structures.(*WritableBTreeV2).EnableLazyRebalancing"
+	fnLazyOff    = "structures.(*WritableBTreeV2).DisableLazyRebalancing"
+	fnIncOn      = "structures.(*WritableBTreeV2).EnableIncrementalRebalancing"
+	fnIncOff     = "structures.(*WritableBTreeV2).StopIncrementalRebalancing"
+	fnIncProg    = "structures.(*WritableBTreeV2).GetIncrementalRebalancingProgress"
+	fnIsInc      = "structures.(*WritableBTreeV2).IsIncrementalRebalancingEnabled"
+	fnSelect     = "rebalancing.(*ConfigSelector).SelectConfig"
+	fnSRStart    = "rebalancing.(*SmartRebalancer).Start"
+	fnSRStop     = "rebalancing.(*SmartRebalancer).Stop"
+	fnSRLoop     = "rebalancing.(*SmartRebalancer).monitorLoop"
+	fnSRApply    = "rebalancing.(*SmartRebalancer).applyDecision"
 )
 
 type pairSet struct {
 	id   string
-	a, b []string // a race matches when one frame is in a and the other in b
+	a, b []string // a race matches when one innermost library frame is in a and the other in b
 }
 
-// The tables list function names only (no line numbers); see known.d/C18.json for the reasoning per entry.
-var knownPairs = []pairSet{}
+// The tables hold function names only (no line numbers); known.d/C18.json gives the reasoning per entry.
+var knownPairs = []pairSet{
+	// KF-C18-01: rebalanceIncremental (ticker goroutine) and GetProgress (any caller) read bt.lazyState and
+	// lazyState.UnderflowNodes; the foreground replaces/clears them in these three functions.
+	{kfLazyState, []string{fnRebalInc, fnGetProg}, []string{fnBatch, fnLazyOn, fnLazyOff}},
+	// KF-C18-02: a goroutine querying progress/state reads bt.incrementalRebalancer, the fields of the freshly built
+	// rebalancer and its running flag while enable/stop requests (and the loop's own shutdown) write them.
+	{kfHandle, []string{fnIncProg, fnIsInc, fnGetProg}, []string{fnIncOn, fnIncOff, fnIRStart, fnIRStop, fnIRLoop}},
+	// KF-C18-03
+	{kfSelector, []string{fnSelect}, []string{fnSelect}},
+	// KF-C18-04: a Start that overlaps the tail of a Stop re-uses sr.wg and overwrites sr.ctx while the previous
+	// monitor goroutine still reads it; Stop reads currentMode after releasing the lock.
+	{kfSmartLife, []string{fnSRStart}, []string{fnSRLoop, fnSRStop}},
+	{kfSmartLife, []string{fnSRStop}, []string{fnSRApply}},
+}
 
 func in(list []string, s string) bool {
 	for _, x := range list {
@@ -128,6 +168,38 @@ func matchRace(r RaceReport) string {
 		if in(p.a, r.Frames[0]) && in(p.b, r.Frames[1]) || in(p.a, r.Frames[1]) && in(p.b, r.Frames[0]) {
 			return p.id
 		}
+	}
+	return ""
+}
+
+// lifecycleThreads counts the threads of a smart program that call Start or Stop.
+func lifecycleThreads(c Case) int {
+	n := 0
+	for _, th := range c.Threads {
+		for _, op := range th.Ops {
+			if op.K == "start" || op.K == "stop" {
+				n++
+				break
+			}
+		}
+	}
+	return n
+}
+
+// panicID matches a concurrency-only panic against the open findings: the WaitGroup misuse panics raised inside
+// SmartRebalancer.Start/Stop when at least two goroutines drive the lifecycle.
+func panicID(c Case, p *PanicInfo) string {
+	if c.Kind == "smart" && lifecycleThreads(c) >= 2 && strings.Contains(p.Msg, "WaitGroup") && (p.Frame == fnSRStop || p.Frame == fnSRStart) {
+		return kfSmartLife
+	}
+	return ""
+}
+
+// hangID matches a confirmed hang: a Stop that never returns while monitor goroutines of an overlapped generation
+// are still alive, again only when at least two goroutines drive the lifecycle.
+func hangID(c Case, h *Hang) string {
+	if c.Kind == "smart" && lifecycleThreads(c) >= 2 && (h.Op == "stop" || h.Op == "final-stop") && in(h.Frames, fnSRStop) {
+		return kfSmartLife
 	}
 	return ""
 }
